@@ -39,6 +39,12 @@ class BiasedRandom(_random.Random):
         self._stuck_left = 0
         self._stuck_vals = (0,)
 
+    def __getattr__(self, name):
+        # this object stands in for the `random` *module* inside mathy_core.problems:
+        # anything a module offers beyond the Random methods (random.Random, SystemRandom, ...)
+        # is served by the real module
+        return getattr(_random, name)
+
     def random(self):
         b = self._bias.random()
         if b < self._rate:
@@ -275,7 +281,8 @@ class World:
             if not (isinstance(out, tuple) and len(out) == 2 and isinstance(out[0], str)):
                 return [Finding("C17", dict(key, clause="shape"), f"{call} returned {out!r}")]
             text, cx = out
-            if isinstance(cx, bool) or not isinstance(cx, int) or cx <= 0:
+            import numbers
+            if isinstance(cx, bool) or not isinstance(cx, numbers.Real) or not cx > 0:
                 fs.append(Finding("C17", dict(key, clause="complexity"),
                                   f"{call} returned complexity {cx!r} for {text!r}"))
             try:
